@@ -15,13 +15,13 @@ import (
 )
 
 func init() {
-	register(&Rule{Name: "TAB-EXTOID", Floor: 30, Run: ruleTabExtOid,
+	register(&Rule{Name: "TAB-EXTOID", Floor: 15, Run: ruleTabExtOid,
 		Doc: "the 13 extension OIDs equal RFC 5280/6960/Common PKI in enum order; every ExtensionConfig type's Oid() names the OID of its YAML key, and every constructor its Builder reaches stores that same OID"})
 	register(&Rule{Name: "TAB-KU", Floor: 14, Run: ruleTabKU,
 		Doc: "each of the 7 key-usage names ORs exactly the bit RFC 5280 4.2.1.3 assigns to it, and the schema admits exactly those names"})
 	register(&Rule{Name: "TAB-EKU", Floor: 12, Run: ruleTabEKU,
 		Doc: "each of the 6 extended-key-usage names resolves to its RFC 5280 4.2.1.12 OID"})
-	register(&Rule{Name: "TAB-GN", Floor: 11, Run: ruleTabGN,
+	register(&Rule{Name: "TAB-GN", Floor: 5, Run: ruleTabGN,
 		Doc: "every label of every general-name label table (mail/dns/url/ip) produces the GeneralName kind whose marshal uses the RFC 5280 context tag 1/2/6/7; sibling tables agree"})
 	register(&Rule{Name: "TAB-QUAL", Floor: 3, Run: ruleTabQual,
 		Doc: "policy qualifier ids: cps -> id-qt-cps, userNotice -> id-qt-unotice; AIA access method ocsp -> id-ad-ocsp"})
